@@ -35,6 +35,7 @@ Definition body_ok (e : fn_body) : bool :=
   forallb negb (skipn (fb_np e) (fb_wflags e)) && forallb negb (skipn (fb_np e) (fb_kflags e)) &&
   body_disciplined (fb_wflags e) (fb_kflags e) (fb_prog e) &&
   obj_wf (fb_objs e) (fb_prog e) &&
+  forallb (fun r => mem r (fb_objs e)) (fb_classes e) && classes_made_once (fb_classes e) (fb_prog e) &&
   calls_lt (List.length c19_bodies) (fb_prog e) &&
   calls_ok contract_of (fb_prog e).
 
@@ -43,6 +44,33 @@ Proof. vm_compute. reflexivity. Qed.
 
 Definition excepted (e : fn_body) : bool :=
   existsb (fun x => let '(p, f, _) := x in String.eqb p (fb_pkg e) && String.eqb f (fb_fn e)) c19_body_exceptions.
+
+(* THE EXCEPTION LIST IS PINNED: the (package, function) column of the regenerated list must be exactly this one
+   (18 entries, 12 functions).  Adding, removing or renaming an exception in the translator breaks this obligation
+   and has to be acknowledged here. *)
+Open Scope string_scope.
+Theorem exception_list_is_pinned :
+  map (fun x => (fst (fst x), snd (fst x))) c19_body_exceptions =
+    [("keyset", "(*MemReaderWriter).Read");
+     ("keyset", "(*MemReaderWriter).ReadEncrypted");
+     ("keyset", "(*MemReaderWriter).Write");
+     ("keyset", "(*MemReaderWriter).WriteEncrypted");
+     ("streamingaead", "(*unreader).Read");
+     ("streamingaead", "(*unreader).Read");
+     ("streamingaead/subtle", "(aesCTRHMACSegmentDecrypter).DecryptSegmentWithDst");
+     ("streamingaead/subtle", "(aesCTRHMACSegmentDecrypter).DecryptSegmentWithDst");
+     ("streamingaead/subtle", "(aesCTRHMACSegmentEncrypter).EncryptSegmentWithDst");
+     ("streamingaead/subtle", "(aesCTRHMACSegmentEncrypter).EncryptSegmentWithDst");
+     ("streamingaead/subtle", "(aesGCMHKDFSegmentDecrypter).DecryptSegmentWithDst");
+     ("streamingaead/subtle", "(aesGCMHKDFSegmentDecrypter).DecryptSegmentWithDst");
+     ("streamingaead/subtle", "(aesGCMHKDFSegmentEncrypter).EncryptSegmentWithDst");
+     ("streamingaead/subtle", "(aesGCMHKDFSegmentEncrypter).EncryptSegmentWithDst");
+     ("streamingaead/subtle/noncebased", "(*Reader).Read");
+     ("streamingaead/subtle/noncebased", "(*Reader).Read");
+     ("streamingaead/subtle/noncebased", "(*Writer).Close");
+     ("streamingaead/subtle/noncebased", "(*Writer).Write")].
+Proof. reflexivity. Qed.
+Close Scope string_scope.
 
 (* an API function outside the exception list may write through / keep none of its parameters *)
 Definition api_flags_ok (e : fn_body) : bool :=
